@@ -1137,6 +1137,136 @@ def oracle_repeat(ctx, orc, budget):
 
 
 
+# ---------------------------------------------------------------- method NAME arguments of the optimizers
+def deep_same(a, b):
+    """bit-for-bit equality of nested params (dicts, lists, arrays), NaN == NaN."""
+    if isinstance(a, dict) or isinstance(b, dict):
+        return isinstance(a, dict) and isinstance(b, dict) and set(a) == set(b) and all(deep_same(a[k], b[k]) for k in a)
+    if isinstance(a, (list, tuple)) or isinstance(b, (list, tuple)):
+        if not (isinstance(a, (list, tuple)) and isinstance(b, (list, tuple)) and len(a) == len(b)):
+            return False
+        return all(deep_same(u, v) for u, v in zip(a, b))
+    try:
+        aa, bb = np.asarray(a), np.asarray(b)
+    except Exception:  # noqa
+        return a is b or a == b
+    if aa.dtype == object or bb.dtype == object:
+        if aa.shape != bb.shape:
+            return False
+        return all(deep_same(u, v) for u, v in zip(aa.ravel().tolist(), bb.ravel().tolist())) if aa.ndim else (a is b or a == b)
+    if aa.shape != bb.shape or aa.dtype != bb.dtype:
+        return False
+    return bool(np.array_equal(aa, bb, equal_nan=aa.dtype.kind in 'fc'))
+
+
+def compared_literals():
+    """every string literal that an optimizer body compares a name with (same sources as the translator)."""
+    import ast as _ast
+    from .common import REPO
+    import os
+    lits = set()
+    for rel in ('pybaselines/optimizers.py', 'pybaselines/two_d/optimizers.py'):
+        with open(os.path.join(REPO, rel)) as fh:
+            tree = _ast.parse(fh.read())
+        for n in _ast.walk(tree):
+            if isinstance(n, _ast.Compare):
+                for o in [n.left] + list(n.comparators):
+                    for c in _ast.walk(o):
+                        if isinstance(c, _ast.Constant) and isinstance(c.value, str):
+                            lits.add(c.value.lower())
+    return lits
+
+
+def spellings(name, rng):
+    up = name.upper()
+    mixed = ''.join(c.upper() if rng.random() < 0.5 else c for c in name)
+    if mixed in (name, up):
+        mixed = name[0].upper() + name[1:]
+    return [('upper', up), ('mixed', mixed)]
+
+
+def oracle_method_names(ctx, orc, budget):
+    """Optimizers that take a method NAME: every spelling must behave as the lower-case name (baseline and all
+    params, nested ones included), through the object and the functional interface."""
+    from pybaselines import Baseline, Baseline2D, optimizers as O1
+    rng = ctx.rng
+    N = 57
+    nrng = np.random.default_rng([ctx.seed, 91])
+    x = np.linspace(-2.0, 9.0, N)
+    y = M.make_y(nrng, x, 'noise')
+    x2, z2, y2 = M.make_z2d(nrng, 12, 14)
+    # data sets whose entries really differ (another noise realisation, an extra peak, another slope): with affine copies
+    # the per-entry and the averaged classifications coincide and a wrong branch in collab_pls is invisible
+    t = (x - x[0]) / (x[-1] - x[0])
+    ds1 = np.vstack([y, M.make_y(nrng, x, 'noise') * 0.8 + 25 * np.exp(-0.5 * ((t - 0.42) / 0.04) ** 2) + 3 * t])
+    X2, Z2 = np.meshgrid(np.linspace(0, 1, 12), np.linspace(0, 1, 14), indexing='ij')
+    ds2 = np.array([y2, M.make_z2d(nrng, 12, 14)[2] * 0.8 + 9 * np.exp(-0.5 * (((X2 - 0.3) / 0.1) ** 2 + ((Z2 - 0.7) / 0.12) ** 2)) + 2 * X2])
+    own = {'collab_pls', 'optimize_extended_range', 'adaptive_minmax', 'custom_bc', 'interp_pts', 'individual_axes'}
+    all1 = [n for n in M.method_names(False) if n not in own]
+    all2 = [n for n in M.method_names(True) if n not in own]
+    lits = compared_literals()
+    n_done = 0
+
+    def kw1(inner):
+        return dict(M.KW_1D.get(inner) or {})
+
+    def kw2(inner):
+        return dict(M.KW_2D.get(inner) or {})
+
+    def strip(d):
+        return {k: v for k, v in d.items() if k not in ('lam', 'poly_order')}
+
+    plans = [
+        ('1d', 'collab_pls', all1, lambda f, m: f.collab_pls(ds1, method=m, method_kwargs=kw1(m.lower())),
+         lambda m: O1.collab_pls(ds1, method=m, method_kwargs=kw1(m.lower()), x_data=x)),
+        ('1d', 'collab_pls[average_dataset=False]', all1,
+         lambda f, m: f.collab_pls(ds1, average_dataset=False, method=m, method_kwargs=kw1(m.lower())),
+         lambda m: O1.collab_pls(ds1, False, method=m, method_kwargs=kw1(m.lower()), x_data=x)),
+        ('1d', 'optimize_extended_range', all1,
+         lambda f, m: f.optimize_extended_range(y, method=m, min_value=2, max_value=4, method_kwargs=strip(kw1(m.lower()))),
+         lambda m: O1.optimize_extended_range(y, x, method=m, min_value=2, max_value=4, method_kwargs=strip(kw1(m.lower())))),
+        ('1d', 'adaptive_minmax', ['modpoly', 'imodpoly', 'poly', 'penalized_poly', 'loess', 'quant_reg'],
+         lambda f, m: f.adaptive_minmax(y, method=m), lambda m: O1.adaptive_minmax(y, x, method=m)),
+        ('1d', 'custom_bc', all1, lambda f, m: f.custom_bc(y, method=m, method_kwargs=kw1(m.lower())),
+         lambda m: O1.custom_bc(y, x, method=m, method_kwargs=kw1(m.lower()))),
+        ('2d', 'collab_pls', all2, lambda f, m: f.collab_pls(ds2, method=m, method_kwargs=kw2(m.lower())), None),
+        ('2d', 'adaptive_minmax', ['modpoly', 'imodpoly', 'poly', 'penalized_poly', 'quant_reg'],
+         lambda f, m: f.adaptive_minmax(y2, method=m), None),
+        ('2d', 'individual_axes', all1, lambda f, m: f.individual_axes(y2, method=m, method_kwargs=kw1(m.lower())), None),
+    ]
+    for dim, opt, cands, call_obj, call_fun in plans:
+        must = [n for n in cands if n in lits or n in ('loess', 'mpls', 'pspline_mpls')]
+        rest = [n for n in cands if n not in must]
+        names = cands if budget > 1 else must + rng.sample(rest, min(4, len(rest)))
+        for inner in names:
+            mk = (lambda: Baseline(x)) if dim == '1d' else (lambda: Baseline2D(x2, z2))
+            want, e0 = quiet(lambda: call_obj(mk(), inner))
+            if e0 is not None:
+                continue
+            for tag, sp in spellings(inner, rng):
+                routes = [('object', lambda: call_obj(mk(), sp))]
+                if call_fun is not None and tag == 'upper':
+                    routes.append(('function', lambda: call_fun(sp)))
+                for route, fn in routes:
+                    got, e = quiet(fn)
+                    n_done += 1
+                    orc.n_cmp += 1
+                    key = f'{dim}:{opt}:method-name-case:{inner}'
+                    case = {'kind': 'oracle-method-name', 'dim': dim, 'optimizer': opt, 'inner': inner, 'spelling': sp, 'route': route}
+                    ctx.case((dim, opt, inner, tag, route), nontrivial=True, kind=f'oracle:{dim}:method-name-case:{opt}')
+                    if e is not None:
+                        ctx.fail(key, f'{dim} {opt}(method={sp!r}) via the {route} interface raised {type(e).__name__}: {str(e)[:100]} '
+                                 f'while method={inner!r} returns', case)
+                    elif not same(got[0], want[0]):
+                        dev = float(np.nanmax(np.abs(np.asarray(got[0], dtype=float) - np.asarray(want[0], dtype=float))))
+                        ctx.fail(key, f'{dim} {opt}(method={sp!r}) via the {route} interface: baseline differs from method={inner!r} '
+                                 f'(max abs difference {dev:.3g})', case)
+                    elif not deep_same(got[1], want[1]):
+                        ctx.fail(key, f'{dim} {opt}(method={sp!r}) via the {route} interface: params differ from method={inner!r}', case)
+    return n_done
+
+
+
 def oracle(ctx, budget):
     orc = Oracle(ctx, budget)
     names1 = M.method_names(False)
@@ -1150,6 +1280,8 @@ def oracle(ctx, budget):
         for name in names2:
             orc.run_2d(name, Mx, Nz, k)
     oracle_repeat(ctx, orc, budget)
+    n_names = oracle_method_names(ctx, orc, budget)
+    ctx.note(f'method-name spellings through the optimizers: {n_names} comparisons')
     # the degenerate one-point input: no x versus linspace(-1, 1, 1)
     from pybaselines import Baseline
     y1 = np.array([5.0])
@@ -1232,6 +1364,24 @@ def replay(rep):
             orc.run_2d(case['method'], case['N'][0], case['N'][1], case['seedk'])
         hits = [v for v in ctx.violations if v[0] == rep.get('key')]
         for key, what, _ in (hits or ctx.violations):
+            print('replay:', key, what)
+        if not ctx.violations:
+            print('replay: property holds on this input')
+        return 1 if ctx.violations else 0
+    if case.get('kind') == 'oracle-method-name':
+        class _Stub3:
+            def __init__(self, seed):
+                self.seed, self.rng, self.violations = seed, random.Random(f'{PROP}-{seed}'), []
+
+            def case(self, *a, **k):
+                pass
+
+            def fail(self, key, what, case):
+                self.violations.append((key, what, case))
+        ctx = _Stub3(rep.get('seed', 0))
+        oracle_method_names(ctx, Oracle(ctx, 3), 3)
+        hits = [v for v in ctx.violations if v[0] == rep.get('key')] or ctx.violations
+        for key, what, _ in hits[:5]:
             print('replay:', key, what)
         if not ctx.violations:
             print('replay: property holds on this input')
